@@ -617,12 +617,26 @@ impl<'a, 'tcx> BodyDump<'a, 'tcx> {
     }
 
     fn dump(&self, stage: &'static str) -> J {
+        self.dump_as(stage, None)
+    }
+
+    /// `promoted`: index of the promoted constant body being dumped (its def is `<owner>::promoted[i]`)
+    fn dump_as(&self, stage: &'static str, promoted: Option<usize>) -> J {
         let tcx = self.cx.tcx;
         let did = self.owner.to_def_id();
         let body = self.body;
         let mut o: Vec<(&'static str, J)> = vec![];
-        o.push(("def", J::s(self.cx.dp(did))));
-        o.push(("kind", J::s(format!("{:?}", tcx.def_kind(did)))));
+        match promoted {
+            Some(i) => {
+                o.push(("def", J::s(format!("{}::promoted[{}]", self.cx.dp(did), i))));
+                o.push(("kind", J::s("Promoted")));
+                o.push(("promoted", J::I(i as i128)));
+            }
+            None => {
+                o.push(("def", J::s(self.cx.dp(did))));
+                o.push(("kind", J::s(format!("{:?}", tcx.def_kind(did)))));
+            }
+        }
         o.push(("stage", J::s(stage)));
         let (f, l) = self.cx.span_s(body.span);
         o.push(("file", J::S(f)));
@@ -955,6 +969,12 @@ impl Callbacks for Extract {
             }
             first = false;
             bd.dump("opt").write(&mut out);
+            // promoted constants (`&DelayType::Loop` in a comparison, ...) are separate tiny bodies
+            for (pi, pb) in tcx.promoted_mir(did).iter_enumerated() {
+                let pd = BodyDump { cx: &cx, body: pb, owner, resolve: true };
+                out.push(',');
+                pd.dump_as("opt", Some(pi.index())).write(&mut out);
+            }
         }
         out.push_str("],");
         let (impls, adts, fns, traits) = items_j(&cx);
